@@ -18,7 +18,7 @@ def run(ctx):
                'unwinding assertions on',
         outside='inputs longer than the bounds (the decoders have no length-dependent behaviour beyond their fixed header, the DNS/DHCP string loops and '
                 'the rdata loop); the NDL text parser (nom/HashMap/format!/file I/O: no encoding within reach); "the simulation keeps running" (tokio runtime)',
-        jobs=8, timeout=1500 if ctx.quick else 3000)
+        jobs=8, timeout=3000 if ctx.quick else 5000)
     yield demux_drop_part(ctx)
 
 
